@@ -2,14 +2,12 @@
 // fraction's .docs or .meta file fail with a real EFBIG from the kernel (RLIMIT_FSIZE, SIGXFSZ
 // ignored), through the real FracManager.Append.
 //
-//	xbulk {docs}                 one bulk, acknowledged; waits until its documents are indexed
-//	                             (FracManager.WaitIdle cannot be used after a failed append, see
-//	                             the report: the fraction's index wait group is never released)
+//	xbulk {docs}                 one bulk, acknowledged, then FracManager.WaitIdle
 //	fbulk {docs, file, cut}      one Append ATTEMPT under a file-size limit chosen so that the write
 //	                             to `file` (docs|meta) stops after `cut` bytes; answers {acked, err}
 //
-// The child tracks the writer offsets itself (file sizes right after open; every attempt advances
-// them the way FileWriter does), so that the limit can be placed exactly.
+// The child tracks the writer offsets itself (file sizes right after open; every acknowledged bulk
+// advances them, a failed one is rolled back), so that the limit can be placed exactly.
 package main
 
 import (
@@ -127,14 +125,12 @@ func init() {
 		out := faultResp{LD: len(dd), LM: len(mm), OffD: trkD, OffM: trkM}
 		before := c.FM.Active().Info().DocsTotal
 		err := c.FM.Append(newOnceCtx(1), dd, mm)
-		trkD += int64(len(dd))
 		if err == nil {
+			trkD += int64(len(dd))
 			trkM += int64(len(mm))
 			out.Acked = true
-			// fault histories never repeat an indexed ID, so the bulk adds exactly len(docs) documents
-			if werr := waitIndexed(c, before+uint32(len(q.Docs))); werr != nil {
-				return storectl.Resp{}, werr
-			}
+			_ = before
+			c.FM.WaitIdle() // works after a failed append since commit b41979b
 		} else {
 			out.Err = err.Error()
 		}
@@ -180,19 +176,16 @@ func init() {
 		before := c.FM.Active().Info().DocsTotal
 		err := c.FM.Append(newOnceCtx(1), dd, mm)
 		syscall.Setrlimit(syscall.RLIMIT_FSIZE, &old)
-		trkD += int64(len(dd))
 		if err == nil {
 			out.Acked = true
+			trkD += int64(len(dd))
 			trkM += int64(len(mm))
-			if werr := waitIndexed(c, before+uint32(len(q.Docs))); werr != nil {
-				return storectl.Resp{}, werr
-			}
 		} else {
-			out.Err = err.Error()
-			if q.File == "meta" {
-				trkM += int64(len(mm))
-			}
+			out.Err = err.Error() // rolled back: the writers stand where they stood
 		}
+		_ = before
+		// the failed append must have released its slot in the fraction's write wait group
+		c.FM.WaitIdle()
 		b, _ := json.Marshal(out)
 		return storectl.Resp{Extra: b}, nil
 	})
